@@ -8,6 +8,7 @@ mkdir -p $W
 if [ ! -d $W/repo ]; then git -C /repo worktree add -q --detach $W/repo HEAD || exit 2; fi
 (cd $W/repo && git checkout -q -- . && git checkout -q --detach "$(git -C /repo rev-parse HEAD)") || exit 2
 rsync -a --delete --exclude target --exclude work --exclude .git --exclude "replays/*/found" /verif/ $W/verif/
+rm -rf $W/verif/replays/*/found
 sed -i "s#path = \"/repo\"#path = \"$W/repo\"#" $W/verif/harness/Cargo.toml
 (cd $W/repo && git apply "$PATCH") || { echo "patch does not apply"; exit 2; }
 PROPS="$*"
